@@ -326,9 +326,17 @@ def one_server_run(ctx, kind, placement, further_kind, orders_seen, it):
             got = gw            # the document's own outline is right, the workspace-wide listing shows more / less for F
         ctx.judged()
         if got != want:
-            both = sorted(expected_symbols(buf) + expected_symbols(disk))
+            # which uncoordinated scan analyses of F ran after / while the editor's: the parallel phase's visit reads the DISK
+            # text; the later plugin / import phase re-analyses the CACHED text (an editor version), never the disk's
+            how = scan_after_editor(evlog, Freal)
+            allowed = expected_symbols(buf)
+            if how["fresh"]:
+                allowed = allowed + expected_symbols(disk)
+            if placement == "burst" and (how["fresh"] or how["cached"]):
+                allowed = allowed + expected_symbols(big)
+            both = sorted(allowed)
             sub = all(got.count(x) <= both.count(x) for x in got)
-            if order != "visit_first" and sub and ctx.known(KF):
+            if order != "visit_first" and (how["fresh"] or how["cached"]) and sub and ctx.known(KF):
                 ctx.nontrivial(tag + (order, "disk_content_present"))
             else:
                 ctx.violation({"kind": "server-index-of-F-is-not-the-buffer", "tag": tag, "order": order},
@@ -368,20 +376,52 @@ def wait_file(srv, path, timeout=30):
         raise Inconclusive(f"failpoint file {os.path.basename(path)} did not appear")
 
 
-def observed_order(evlog, F):
-    """which of {scan's analysis of F, editor's analysis of F} finished first, from the event log"""
-    first_fresh = first_open = None
+def scan_after_editor(evlog, F):
+    """{'fresh': a scan worker's from-disk analysis of F started after the editor's first one, 'cached': a scan thread's
+    re-analysis (cleaning path, cached text) did}"""
+    out = {"fresh": False, "cached": False}
+    ev = []
     try:
         for i, line in enumerate(open(evlog)):
             parts = line.rstrip("\n").split("\t")
-            if len(parts) < 3 or parts[2] != F:
-                continue
-            if parts[1] == "analyze_fresh_enter" and first_fresh is None:
-                first_fresh = i
-            if parts[1] == "analyze_enter" and first_open is None:
-                first_open = i
+            if len(parts) >= 3 and parts[2] == F:
+                ev.append((i, parts[0], parts[1]))
+    except FileNotFoundError:
+        return out
+    editor_enter = [i for i, th, k in ev if th == "ThreadId(1)" and k.endswith("_enter")]
+    if not editor_enter:
+        return out
+    t0 = min(editor_enter)
+    for i, th, k in ev:
+        if th != "ThreadId(1)" and i > t0:
+            if k.startswith("analyze_fresh"):
+                out["fresh"] = True
+            elif k.startswith("analyze_"):
+                out["cached"] = True
+    # an analysis that started before the editor's and ended after it started also counts as interleaved
+    for i, th, k in ev:
+        if th != "ThreadId(1)" and i < t0 and k.endswith("_enter"):
+            kind = "fresh" if k.startswith("analyze_fresh") else "cached"
+            ends = [j for j, th2, k2 in ev if th2 == th and j > i and k2 == "analyze_exit"]
+            if not ends or min(ends) > t0:
+                out[kind] = True
+    return out
+
+
+def observed_order(evlog, F):
+    """From the event log: did every analysis of F by a scan thread (the parallel phase's visit AND the later re-analysis of
+    the plugin / import phase) finish before the editor's first analysis of F started ("visit_first"), or did a scan thread
+    analyse F after or while the editor did ("open_first")?  The server handles notifications on its main thread."""
+    ev = []
+    try:
+        for i, line in enumerate(open(evlog)):
+            parts = line.rstrip("\n").split("\t")
+            if len(parts) >= 3 and parts[2] == F:
+                ev.append((i, parts[0], parts[1]))
     except FileNotFoundError:
         return "unknown"
-    if first_fresh is None or first_open is None:
+    editor_enter = [i for i, th, k in ev if th == "ThreadId(1)" and k.endswith("_enter")]
+    scan_any = [i for i, th, k in ev if th != "ThreadId(1)"]
+    if not editor_enter or not scan_any:
         return "unknown"
-    return "visit_first" if first_fresh < first_open else "open_first"
+    return "visit_first" if max(scan_any) < min(editor_enter) else "open_first"
